@@ -1197,6 +1197,86 @@ theorem agg_id (W : ι → ι → ℝ) (a b : ι) : agg W (fun x => x) a b = W a
 
 end aggcompose
 
+/-! ### Aggregation composes, un-normalised / explicit-divisor versions (`Qrawg`, signed Louvain): every statement holds for
+EVERY real divisor `sd` (also `sd = 0`, where `x / 0 = 0` on both sides). -/
+section aggcompose2
+open BigOperators Finset
+variable {ι : Type} [Fintype ι] [DecidableEq ι] {μ : Type} [Fintype μ] [DecidableEq μ] {ν : Type} [DecidableEq ν]
+
+/-- `Qrawg (agg W cur) p γ sd = Qrawg W (p ∘ cur) γ sd`, arbitrary divisor (`Qraw_agg_comp` + `agg_kernel`) -/
+theorem Qrawg_agg_comp' (W : ι → ι → ℝ) (cur : ι → μ) (p : μ → ν) (γ sd : ℝ) :
+    Qrawg (fun a b => agg W cur a b) p γ sd = Qrawg W (p ∘ cur) γ sd := by
+  unfold Qrawg
+  rw [← Qraw_agg_comp]
+  congr 1
+  funext a b
+  exact (agg_kernel W cur γ sd a b).symm
+
+/-- same, for a level matrix `Wl` given entrywise (`Wl[a][b] == agg(W, cur, a, b, n)`) -/
+theorem Qrawg_agg_comp (W : ι → ι → ℝ) (cur : ι → μ) (p : μ → ν) (Wl : μ → μ → ℝ)
+    (hWl : ∀ a b, Wl a b = agg W cur a b) (γ sd : ℝ) :
+    Qrawg Wl p γ sd = Qrawg W (p ∘ cur) γ sd := by
+  have : Wl = fun a' b' => agg W cur a' b' := by funext a' b'; exact hWl a' b'
+  rw [this]; exact Qrawg_agg_comp' W cur p γ sd
+
+/-- `lemma_agg_compose_g(W0, cur, Wl, p, new, gamma, sd, N0, n)` in the shape of the SMT lemma instance:
+`Wl[a][b] == agg(W0, cur, a, b, N0)`, `new[x] == p[cur[x] - 1]`  ⟹
+`agg(Wl, p, a, b, n) == agg(W0, new, a, b, N0)` and `Qrawg(Wl, p, g, sd, n) == Qrawg(W0, new, g, sd, N0)` (any `sd`) -/
+theorem agg_compose_g_smt (W : ι → ι → ℝ) (cur : ι → μ) (Wl : μ → μ → ℝ) (p : μ → ν) (new : ι → ν) (γ sd : ℝ)
+    (hWl : ∀ a b, Wl a b = agg W cur a b) (hnew : ∀ x, new x = p (cur x)) :
+    (∀ a b, agg Wl p a b = agg W new a b) ∧ Qrawg Wl p γ sd = Qrawg W new γ sd := by
+  have : new = p ∘ cur := by funext x; exact hnew x
+  rw [this]
+  exact ⟨fun a b => agg_comp W cur p Wl hWl a b, Qrawg_agg_comp W cur p Wl hWl γ sd⟩
+
+/-- `Qrawg` exposed as a double sum of an explicit kernel over same-label pairs: row sum (out-degree) of `x`,
+column sum (in-degree) of `y` -/
+theorem Qrawg_def_sum (W : ι → ι → ℝ) (c : ι → ν) (γ sd : ℝ) :
+    Qrawg W c γ sd = ∑ x, ∑ y, if c x = c y then (W x y - γ * sum1 (W x) * csum W y / sd) else 0 := rfl
+
+/-- symmetric case: row sums for both factors -/
+theorem Qrawg_def_sum_symm (W : ι → ι → ℝ) (hW : ∀ x y, W x y = W y x) (c : ι → ν) (γ sd : ℝ) :
+    Qrawg W c γ sd = ∑ x, ∑ y, if c x = c y then (W x y - γ * sum1 (W x) * sum1 (W y) / sd) else 0 := by
+  rw [Qrawg_def_sum]
+  apply Finset.sum_congr rfl; intro x _
+  apply Finset.sum_congr rfl; intro y _
+  rw [csum_symm W hW y]
+
+/-- un-normalised sibling of `q_from_aggregate`: for `w = agg W c`,
+`trace(w) − (γ · sum(w·w)) / sd = Qrawg W c γ sd` for every divisor `sd` -/
+theorem qg_from_aggregate (W : ι → ι → ℝ) (c : ι → μ) (γ sd : ℝ) :
+    (∑ a, agg W c a a) - γ * (∑ a, ∑ b, ∑ t, agg W c a t * agg W c t b) / sd = Qrawg W c γ sd := by
+  have hsplit : Qrawg W c γ sd
+      = (∑ x, ∑ y, if c x = c y then W x y else 0)
+        - γ / sd * (∑ x, ∑ y, if c x = c y then (∑ y', W x y') * (∑ x', W x' y) else 0) := by
+    have key : ∀ (A B : ι → ι → ℝ) (k : ℝ),
+        (∑ x, ∑ y, (A x y - k * B x y)) = (∑ x, ∑ y, A x y) - k * (∑ x, ∑ y, B x y) := by
+      intro A B k; simp only [Finset.sum_sub_distrib, Finset.mul_sum]
+    rw [Qrawg_def_sum, ← key]
+    unfold sum1 csum
+    apply Finset.sum_congr rfl; intro x _
+    apply Finset.sum_congr rfl; intro y _
+    by_cases h : c x = c y
+    · simp only [h, if_true]; ring
+    · simp [h]
+  rw [hsplit, sum_sq_agg (agg W c), trace_agg, deg_part c (fun x => ∑ y', W x y') (fun y => ∑ x', W x' y)]
+  simp_rw [colsum_agg, rowsum_agg]
+  have : (∑ t : μ, (∑ y, if c y = t then (∑ x, W x y) else 0) * (∑ x, if c x = t then (∑ y, W x y) else 0))
+       = ∑ t : μ, (∑ x, if c x = t then (∑ y, W x y) else 0) * (∑ y, if c y = t then (∑ x, W x y) else 0) := by
+    apply Finset.sum_congr rfl; intro t _; ring
+  rw [this]
+  ring
+
+/-- `lemma_qg_from_aggregate(w, W, ci, gamma, sd, m, n)` in the shape of the SMT lemma instance: `w[a][b] == agg(W,ci,a,b,n)`
+⟹ `trace1(w, m) - udiv(umul(g, sumdot(w, w, m)), sd) == Qrawg(W, ci, g, sd, n)` (any `sd`) -/
+theorem qg_from_aggregate_smt (w : μ → μ → ℝ) (W : ι → ι → ℝ) (c : ι → μ) (γ sd : ℝ)
+    (hw : ∀ a b, w a b = agg W c a b) :
+    (∑ a, w a a) - (γ * (∑ a, ∑ b, ∑ t, w a t * w t b)) / sd = Qrawg W c γ sd := by
+  simp_rw [hw]
+  exact qg_from_aggregate W c γ sd
+
+end aggcompose2
+
 -- ===== FOURTH BATCH: counting lemma instances (`lemma_flat_count`, `lemma_image_count`, `lemma_tsum_plus_transpose`) =====
 -- Encoding: the flat (row-major) position `i` of an `n × n` array denotes the cell `(frow(i,n), fcol(i,n))`; the SMT enumeration
 -- `e ↦ (frow(ix[e],n), fcol(ix[e],n))`, `0 ≤ e < k`, is `cell : Fin k → ι × ι` (the range facts `0 ≤ frow, fcol < n` are typing);
@@ -1399,6 +1479,7 @@ end gencount
 -- (second batch: singletons, Qrawg / QrawB gain, relabel_g, umul linearity, walks incl. split and pigeonhole, dot support:
 --  all proved.)
 -- (third batch: aggregation composes — `agg_comp`, `tot_agg`, `Q_agg_comp`, `agg_compose_smt` for `lemma_agg_compose`: all proved.)
+-- (third batch, explicit divisor: `Qrawg_agg_comp`, `agg_compose_g_smt`, `qg_from_aggregate(_smt)`, `Qrawg_def_sum(_symm)`: all proved, any `sd`.)
 -- (fourth batch: counting — `card_offdiag_enum(_int)`, `card_upper_enum(_nat)` for `lemma_flat_count`, `tot_indicator_of_injective_cells`
 --  for `lemma_image_count`, `tot_add_transpose` for `lemma_tsum_plus_transpose`: all proved; `Fintype.card ι` is the SMT `n`, hence `n ≥ 0`.)
 -- (fourth batch, continued: `tot_indicator_of_injective_cells_witness` (where-index form of `lemma_image_count`), `tot_add` for
